@@ -225,7 +225,11 @@ func (w *wspClient) wrap(rtspReq []byte) (*kit.RTSPResp, string, error) {
 		return nil, "", err
 	}
 	i := bytes.Index(rm, []byte("\r\n\r\n"))
-	if i < 0 || !bytes.HasPrefix(rm, []byte("WSP/1.1 200")) {
+	if i < 0 || !bytes.HasPrefix(rm, []byte("WSP/1.1 ")) {
+		// not a WSP response at all (e.g. an interleaved frame or a fragment on the control channel)
+		return nil, string(rm), fmt.Errorf("control-channel message is not one complete WSP response")
+	}
+	if !bytes.HasPrefix(rm, []byte("WSP/1.1 200")) {
 		return nil, string(rm), fmt.Errorf("bad WSP response")
 	}
 	body := rm[i+4:]
@@ -409,14 +413,14 @@ func runC13(c *kit.Ctx) {
 			continue
 		}
 		if res.torn != "" {
-			detail["why"] = res.torn
+			detail["why"] = res.torn[:min(800, len(res.torn))]
 			switch {
 			case strings.Contains(res.torn, "torn RTSP stream"), strings.Contains(res.torn, "damaged"), strings.Contains(res.torn, "never negotiated"):
 				c.Violation("C13:torn-byte-stream:"+transport, detail)
-			case strings.Contains(res.torn, "does not carry exactly one"), strings.Contains(res.torn, "extra bytes"):
+			case strings.Contains(res.torn, "does not carry exactly one"), strings.Contains(res.torn, "extra bytes"), strings.Contains(res.torn, "is not one complete WSP response"):
 				c.Violation("C13:websocket-message-not-one-item:"+transport, detail)
 			default:
-				c.Inconclusive("player could not complete: " + res.torn)
+				c.Inconclusive("player could not complete: " + res.torn[:min(200, len(res.torn))])
 			}
 			continue
 		}
